@@ -7,9 +7,10 @@
   Domain guard `envelopeOk kvs = true`: the reply is a 1.0-form envelope (no `jsonrpc` member) or a
   2.0-form envelope whose `jsonrpc` member is a number or simple decimal string not above 2.0 —
   exactly the inputs on which `versionAbove2` returns `false` without raising.
+
+  Companion theorems of the extracted facts (`C06_gen_*`) live in JRV/Properties/C06Gen.lean.
 -/
 import JRV.Model.Client
-import JRV.Generated
 
 set_option linter.unusedSimpArgs false
 
@@ -135,6 +136,36 @@ theorem C06_result_unchanged (kvs : List (PyVal × PyVal)) (r : PyVal)
       have := herr e he
       simp [hj, henv, hk, he, this, hres, subscriptResult, bind, Except.bind, pure, Except.pure]
 
+/-- ServerProxy call (`proxy.some.method(...)`, `ServerProxy._request`): an error reply raises exactly the
+    exception `errorOf` describes — the `response["result"]` after the check is never reached. -/
+theorem C06_proxy_error (kvs : List (PyVal × PyVal)) (e : PyVal)
+    (henv : envelopeOk kvs = true) (herr : lookupStr "error" kvs = some e) (ht : e.truthy = true) :
+    proxyResult (.dict kvs) = .error (errorOf e) := by
+  simp [proxyResult, C06_error_raises kvs e henv herr ht, bind, Except.bind]
+
+/-- Notification call (`proxy._notify.some.method(...)`, `ServerProxy._request_notify`): a server that does
+    answer a notification with an error object (this library's server does for an invalid request) makes
+    the call raise that error — it is not swallowed because "notifications are never answered". -/
+theorem C06_notify_error (kvs : List (PyVal × PyVal)) (e : PyVal)
+    (henv : envelopeOk kvs = true) (herr : lookupStr "error" kvs = some e) (ht : e.truthy = true) :
+    proxyNotify (.dict kvs) = .error (errorOf e) := by
+  simp [proxyNotify, C06_error_raises kvs e henv herr ht, bind, Except.bind]
+
+/-- …and the notification call returns `None` for an empty reply (the normal case) as for every reply
+    without a truthy error that has a `result` member: `_request_notify` returns nothing by construction. -/
+theorem C06_notify_none (kvs : List (PyVal × PyVal)) (r : PyVal)
+    (henv : envelopeOk kvs = true) (hres : lookupStr "result" kvs = some r)
+    (herr : ∀ e, lookupStr "error" kvs = some e → e.truthy = false) :
+    proxyNotify (.dict kvs) = .ok .none ∧ proxyNotify .none = .ok .none ∧ proxyNotify (.str "") = .ok .none := by
+  have h := C06_result_unchanged kvs r henv hres herr
+  refine ⟨?_, by simp [proxyNotify, checkForErrors, truthy, bind, Except.bind, pure, Except.pure],
+    by simp [proxyNotify, checkForErrors, truthy, bind, Except.bind, pure, Except.pure]⟩
+  unfold proxyResult at h
+  unfold proxyNotify
+  cases hc : checkForErrors (.dict kvs) with
+  | ok v => simp [bind, Except.bind, pure, Except.pure]
+  | error x => simp [hc, bind, Except.bind] at h
+
 /-- The same two facts at every batch position of a MultiCall result. -/
 theorem C06_multicall (results : List PyVal) (i : Nat) (kvs : List (PyVal × PyVal))
     (hi : results[i]? = some (.dict kvs)) (henv : envelopeOk kvs = true) :
@@ -149,6 +180,65 @@ theorem C06_multicall (results : List PyVal) (i : Nat) (kvs : List (PyVal × PyV
   · intro r hr herr
     simp only [multicallGet, hi]
     exact C06_result_unchanged kvs r henv hr herr
+
+/-- Iteration over a MultiCall result (`for r in mc()`, `list(mc())`, `a, b = mc()`): the entries before the
+    first error entry are handed out as their `result` members, in order and unchanged; the first error entry
+    ends the iteration with exactly the exception `errorOf` describes (nothing is yielded in its place, and
+    nothing after it is looked at). -/
+theorem C06_iter_first_error (pre : List (List (PyVal × PyVal) × PyVal)) (kvs : List (PyVal × PyVal)) (e : PyVal)
+    (rest : List PyVal)
+    (hpre : ∀ p ∈ pre, envelopeOk p.1 = true ∧ lookupStr "result" p.1 = some p.2 ∧
+        (∀ e, lookupStr "error" p.1 = some e → e.truthy = false))
+    (henv : envelopeOk kvs = true) (herr : lookupStr "error" kvs = some e) (ht : e.truthy = true) :
+    multicallIter (pre.map (fun p => PyVal.dict p.1) ++ PyVal.dict kvs :: rest)
+      = (pre.map (·.2), some (errorOf e)) := by
+  induction pre with
+  | nil => simp [multicallIter, C06_proxy_error kvs e henv herr ht]
+  | cons p ps ih =>
+    have hp := hpre p (by simp)
+    have ih' := ih (fun q hq => hpre q (by simp [hq]))
+    simp [multicallIter, C06_result_unchanged p.1 p.2 hp.1 hp.2.1 hp.2.2, ih']
+
+/-- Iteration over a MultiCall result without error entries yields every `result` member, in order. -/
+theorem C06_iter_all (items : List (List (PyVal × PyVal) × PyVal))
+    (hall : ∀ p ∈ items, envelopeOk p.1 = true ∧ lookupStr "result" p.1 = some p.2 ∧
+        (∀ e, lookupStr "error" p.1 = some e → e.truthy = false)) :
+    multicallIter (items.map (fun p => PyVal.dict p.1)) = (items.map (·.2), Option.none) := by
+  induction items with
+  | nil => simp [multicallIter]
+  | cons p ps ih =>
+    have hp := hall p (by simp)
+    have ih' := ih (fun q hq => hall q (by simp [hq]))
+    simp [multicallIter, C06_result_unchanged p.1 p.2 hp.1 hp.2.1 hp.2.2, ih']
+
+/-- `list(mc())` (and `tuple`, `sorted`, …): the list of results, or the exception of the first error entry. -/
+theorem C06_list (pre : List (List (PyVal × PyVal) × PyVal)) (kvs : List (PyVal × PyVal)) (e : PyVal)
+    (rest : List PyVal)
+    (hpre : ∀ p ∈ pre, envelopeOk p.1 = true ∧ lookupStr "result" p.1 = some p.2 ∧
+        (∀ e, lookupStr "error" p.1 = some e → e.truthy = false))
+    (henv : envelopeOk kvs = true) (herr : lookupStr "error" kvs = some e) (ht : e.truthy = true) :
+    multicallList (pre.map (fun p => PyVal.dict p.1) ++ PyVal.dict kvs :: rest) = .error (errorOf e) ∧
+    multicallList (pre.map (fun p => PyVal.dict p.1)) = .ok (pre.map (·.2)) := by
+  simp [multicallList, C06_iter_first_error pre kvs e rest hpre henv herr ht, C06_iter_all pre hpre,
+    pure, Except.pure]
+
+/-- Unpacking `a1, …, an = mc()`: an error entry among the entries the unpacking consumes (the `n` targets
+    and the one probed for "too many values") raises its exception, whatever the arity. -/
+theorem C06_unpack_error (pre : List (List (PyVal × PyVal) × PyVal)) (kvs : List (PyVal × PyVal)) (e : PyVal)
+    (rest : List PyVal) (n : Nat) (hn : pre.length ≤ n)
+    (hpre : ∀ p ∈ pre, envelopeOk p.1 = true ∧ lookupStr "result" p.1 = some p.2 ∧
+        (∀ e, lookupStr "error" p.1 = some e → e.truthy = false))
+    (henv : envelopeOk kvs = true) (herr : lookupStr "error" kvs = some e) (ht : e.truthy = true) :
+    multicallUnpack (pre.map (fun p => PyVal.dict p.1) ++ PyVal.dict kvs :: rest) n = .error (errorOf e) := by
+  have hlen : (pre.map (fun p => PyVal.dict p.1)).length = pre.length := by simp
+  have htake : (pre.map (fun p => PyVal.dict p.1) ++ PyVal.dict kvs :: rest).take (n + 1)
+      = pre.map (fun p => PyVal.dict p.1) ++ PyVal.dict kvs :: rest.take (n - pre.length) := by
+    rw [List.take_append, hlen]
+    have h1 : (pre.map (fun p => PyVal.dict p.1)).take (n + 1) = pre.map (fun p => PyVal.dict p.1) :=
+      List.take_of_length_le (by omega)
+    have h2 : n + 1 - pre.length = (n - pre.length) + 1 := by omega
+    rw [h1, h2, List.take_succ_cons]
+  simp [multicallUnpack, htake, C06_iter_first_error pre kvs e _ hpre henv herr ht]
 
 /-- A batch answered with ONE error object (the server rejected the whole batch): the batch call itself
     raises the exception that error describes; an array reply is the result list unchanged. -/
@@ -169,14 +259,30 @@ theorem C06_appdata (ekvs : List (PyVal × PyVal)) (code : PyVal)
     appErrorData (errorOf (.dict ekvs)) = some ((lookupStr "data" ekvs).getD .none) := by
   simp [errorOf, hc, hp, appErrorData]
 
-/-- Tie to the source: the range written in `check_for_errors` is the one the model uses. -/
-theorem C06_gen_protoRange :
-    Generated.protoRange = some (protoLo, protoHi, true, true) := by
-  decide
+/-- The property over ALL reply objects, including the envelopes `envelopeOk` leaves out.  Excluded from the
+    theorems above (and from the monitor's domain) are the replies on which the version gate of
+    `check_for_errors` — `"jsonrpc" in result and float(result["jsonrpc"]) > 2.0`, evaluated BEFORE the error
+    member is looked at — does not answer `False`:
+      * `"jsonrpc"` bound to a number or numeric string above 2.0 (`2.1`, `3`, `"2.5"`): `NotImplementedError`;
+      * `"jsonrpc"` bound to a non-numeric string (`"abc"`, `""`): `ValueError` from `float()`;
+      * `"jsonrpc"` bound to `null`, an array or an object: `TypeError` from `float()`;
+      * `"jsonrpc"` bound to a string `float()` accepts but the model declines (`" 2"`, `"2e0"`, `"1_0"`, `"inf"`,
+        `"nan"`): class `"Unmodelled"`.
+    For those replies an error member does NOT lead to a ProtocolError, so the statement below is false of the
+    code as it is; the property text quantifies over "1.0- and 2.0-form envelopes", which is what `envelopeOk`
+    captures (no `jsonrpc` member, or one that is at most 2.0).  Replies that are not objects at all
+    (`TypeError("Response is not a dict.")`) are likewise outside: they have no "error" member. -/
+def C06_full_statement : Prop :=
+  ∀ (kvs : List (PyVal × PyVal)) (e : PyVal), lookupStr "error" kvs = some e → e.truthy = true →
+    checkForErrors (.dict kvs) = .error (errorOf e) ∧ proxyResult (.dict kvs) = .error (errorOf e) ∧
+    proxyNotify (.dict kvs) = .error (errorOf e)
 
-theorem C06_gen_errorClasses :
-    Generated.errorClasses = some ("ProtocolError", "AppError", "ProtocolError", "ProtocolError") := by
-  decide
+/-- The full statement fails exactly because of the version gate: a witness. -/
+theorem C06_full_statement_false : ¬ C06_full_statement := by
+  intro h
+  have := (h [(.str "jsonrpc", .int 3), (.str "error", .str "boom")] (.str "boom") (by decide +kernel) (by decide +kernel)).1
+  revert this
+  decide +kernel
 
 /- Non-vacuity: concrete envelopes meeting the hypotheses, and concrete outcomes. -/
 example : envelopeOk [(.str "jsonrpc", .float ⟨false, 2, 0⟩), (.str "id", .int 1),
@@ -198,5 +304,15 @@ example : checkForErrors (.dict [(.str "jsonrpc", .int 2), (.str "id", .int 1),
 
 example : proxyResult (.dict [(.str "jsonrpc", .int 2), (.str "id", .int 0), (.str "result", .int 0)])
     = .ok (.int 0) := by decide +kernel
+
+example : proxyNotify (.dict [(.str "jsonrpc", .int 2), (.str "id", .none),
+    (.str "error", mkDict [("code", .int (-32600)), ("message", .str "Invalid request")])])
+    = .error { cls := "ProtocolError", arg := .tuple [.int (-32600), .str "Invalid request"] } := by decide +kernel
+
+example : multicallIter [.dict [(.str "jsonrpc", .int 2), (.str "id", .int 1), (.str "result", .int 1)],
+    .dict [(.str "jsonrpc", .int 2), (.str "id", .int 2),
+      (.str "error", mkDict [("code", .int (-32601)), ("message", .str "nope")])],
+    .dict [(.str "jsonrpc", .int 2), (.str "id", .int 3), (.str "result", .int 3)]]
+    = ([.int 1], some { cls := "ProtocolError", arg := .tuple [.int (-32601), .str "nope"] }) := by decide +kernel
 
 end JRV.Props
